@@ -82,6 +82,15 @@ def build_file(name, fps, arrangement, fill, regime, final_nl, bom=False, blank_
                 post = "" if fp.anchor_r else F[1]
                 lines.append(([("t", pre)] if pre else []) + [("o", fp)] + ([("t", post)] if post else []))
             lines.append([("t", F[2])])
+    elif arrangement == "glued":
+        # occurrences directly preceded by a letter or an underscore (v1.2.3, demo_1.2.3), next to a normally delimited one
+        for fp in fps:
+            if fp.anchor_l:
+                continue
+            post = "" if fp.anchor_r else F[1]
+            for pre in ("v", "demo_", "release: ", "Z"):
+                lines.append([("t", pre), ("o", fp)] + ([("t", post)] if post else []))
+        lines.append([("t", F[2])])
     elif arrangement[0] == "repeat-dense":
         # the same pattern on consecutive lines, nothing in between
         for r in range(arrangement[1]):
